@@ -265,6 +265,13 @@ def import_haptools():
     sys.path.insert(0, str(REPO))
     import haptools  # noqa
 
+    # GenotypesPLINK.read/write call gc.collect() per chunk; with the harness' large heap of recorded
+    # traces that turns quadratic.  Memory management only: replaced by a no-op inside the harness process.
+    import types
+    import haptools.data.genotypes as _g
+
+    if hasattr(_g, "gc"):
+        _g.gc = types.SimpleNamespace(collect=lambda *a, **k: 0)
     got = Path(haptools.__file__).resolve().parent.parent
     if got != REPO.resolve():
         raise Infra(f"haptools imported from {got}, expected {REPO}")
